@@ -204,6 +204,11 @@ func (r *Report) Finish(o finishOpts) int {
 		st := r.rules[name]
 		fmt.Printf("rule %-28s instances=%-4d discharged=%-4d excepted=%-3d violated=%-3d undecided=%-3d floor=%d\n", name, st.Instances, st.Discharged, st.Excepted, st.Violated, st.Undecided, st.Floor)
 	}
+	if os.Getenv("YGOTSA_LIST") != "" {
+		for _, ob := range r.obs {
+			fmt.Printf("  %-10s [%s] %s at %s: %s\n", ob.Status, ob.Rule, ob.Construct, ob.Pos, ob.Detail)
+		}
+	}
 	for _, ob := range viol {
 		fmt.Printf("  violated: [%s] %s at %s: %s\n", ob.Rule, ob.Construct, ob.Pos, ob.Detail)
 	}
